@@ -229,3 +229,39 @@ Theorem gen_C18_h_REGISTER : forall c,
 Proof. exact go_h_REGISTER_eq. Qed.
 Print Assumptions gen_C18_h_PING.
 Print Assumptions gen_C18_h_REGISTER.
+
+(* generated-code tie, stage 6: the address that is dialled.  Most of internalConnect (dialling, TLS,
+   goroutines) is outside the translated subset; Gen/GoFuncs.v holds the Gallina TRANSLATION of ONE
+   statement of it, the top-level if-statement whose condition calls hasPort (translator/go2coq.go,
+   target stmt:hasPort:Conn.internalConnect; the translator refuses unless there is exactly one):
+   inputs = the fields it reads (cfg.SSL, cfg.Server), result = the field it writes (cfg.Server);
+   net.JoinHostPort is a variable, as every stdlib function that is not transliterated.
+   Instantiated with the model's join_host_port it is dial_addr (Proofs/GenEqDial.v).
+   That this value is what gets dialled is pinned by source facts regenerated on every run
+   (Gen/DialFacts.v, translator/go2coq2.go dialFacts): every Dial / DialContext / DialTimeout call of
+   package client passes conn.cfg.Server as the address — the direct one in internalConnect and
+   BOTH branches of dialProxy; the only assignments to a cfg.Server field are ConnectToContext's
+   (before Connect) and the two JoinHostPort ones of the translated statement; and in internalConnect
+   that statement comes before the call of dialProxy and before the direct dial.  A dial site with
+   another argument, a further write to cfg.Server or a changed order makes the tie fail to compile. *)
+From Verif Require Import GenEqDial.
+From Verif Require DialFacts.
+Theorem gen_C18_dial_addr : forall c,
+  go_client_Conn_internalConnect_if_hasPort join_host_port (rc_ssl c) (rc_server c) = Ok (dial_addr c).
+Proof. exact go_internalConnect_addr_eq. Qed.
+Lemma tie_C18_dial_sites :
+  DialFacts.dial_sites_client
+    = [("Conn.dialProxy"%string, "contextProxyDialer.DialContext"%string, "conn.cfg.Server"%string);
+       ("Conn.dialProxy"%string, "conn.proxyDialer.Dial"%string, "conn.cfg.Server"%string);
+       ("Conn.internalConnect"%string, "conn.dialer.DialContext"%string, "conn.cfg.Server"%string)]
+  /\ DialFacts.server_writes_client
+    = [("Conn.ConnectToContext"%string, "host"%string);
+       ("Conn.internalConnect"%string, "net.JoinHostPort(conn.cfg.Server, ""6697"")"%string);
+       ("Conn.internalConnect"%string, "net.JoinHostPort(conn.cfg.Server, ""6667"")"%string)]
+  /\ DialFacts.dial_seq_client
+    = [("addr"%string, "!hasPort(conn.cfg.Server)"%string);
+       ("call"%string, "conn.dialProxy"%string);
+       ("dial"%string, "conn.dialer.DialContext"%string)].
+Proof. repeat split; reflexivity. Qed.
+Print Assumptions gen_C18_dial_addr.
+Print Assumptions tie_C18_dial_sites.
